@@ -4,14 +4,15 @@
 
      expressions  number / bool / ASCII string literals, variables, groups, unary - and !,
                   binary + - * / % < <= > >= on numbers, + and the comparisons on strings,
-                  == and != on numbers, bools and strings;
+                  array literals, a[i] on arrays and strings, + on arrays,
+                  == and != when one operand is manifestly scalar (scalar_valued);
      statements   declarations, assignments to variables, if / else if / else, while, break,
                   the empty statement — declarations anywhere (block scopes).
 
    Whenever lx_l is defined, the Sem run of the corresponding Ast program ends normally and
    every variable of lx_l's final environment is a global of the Sem state whose cell HOLDS
-   that value.  Missing (hence _partial): arrays, maps, indexing, slicing, % and the for
-   loops (see the end of the file for what stands in the way). *)
+   that value.  Missing (hence _partial): maps, slices, array repetition, == on two
+   composites, non-ASCII strings and the for loops (see the end of the file). *)
 From Coq Require Import ZArith NArith PArith List String Bool Floats FMapPositive Lia.
 From EvyV Require Import Base Num Ast Omap Sem SemOrder SemStoreBase SemFresh SemEvents SemIso.
 From EvyV Require Vm Compile CompileSem.
@@ -45,7 +46,32 @@ Inductive xrel : C.expr -> expr -> Prop :=
 | x_neg e x : xrel e x -> xrel (C.EUn C.UMinus e) (EUn UMinus x)
 | x_not e x : xrel e x -> xrel (C.EUn C.UBang e) (EUn UBang x)
 | x_bin op op' lt rt t l r xl xr : trop op = Some op' -> xrel l xl -> xrel r xr ->
-    xrel (C.EBin op lt rt l r) (EBin op' t xl xr).
+    xrel (C.EBin op lt rt l r) (EBin op' t xl xr)
+| x_arr l xl t : xlrel l xl -> xrel (C.EArr l) (EArr t xl)
+| x_index l i xl xi t : xrel l xl -> xrel i xi -> xrel (C.EIndex l i) (EIndex t xl xi)
+with xlrel : C.elist -> list expr -> Prop :=
+| xl_nil : xlrel C.ENil []
+| xl_cons e t x xt : xrel e x -> xlrel t xt -> xlrel (C.ECons e t) (x :: xt).
+
+Scheme xrel_mind := Minimality for xrel Sort Prop
+  with xlrel_mind := Minimality for xlrel Sort Prop.
+Combined Scheme xrel_xlrel_ind from xrel_mind, xlrel_mind.
+
+(* an expression whose value, when defined, is a number, a string or a bool whatever the
+   variables hold: == and != are in the fragment when one operand is of this form (then a
+   defined comparison has two scalar operands: value.Equals is undefined on mixed kinds) *)
+Fixpoint scalar_valued (e : C.expr) : bool :=
+  match e with
+  | C.ENum _ | C.EBool _ | C.EStr _ => true
+  | C.EGroup e1 => scalar_valued e1
+  | C.EUn C.UMinus _ | C.EUn C.UBang _ => true
+  | C.EBin op lt _ _ _ =>
+      match op with
+      | C.BPlus | C.BStar => match lt with C.TNum | C.TStr => true | _ => false end
+      | _ => true
+      end
+  | _ => false
+  end.
 
 Definition name_ok (n : str) : bool := negb (str_eqb n underscore).
 
@@ -57,9 +83,23 @@ Fixpoint tfrag_e (e : C.expr) : bool :=
   | C.EVar n => name_ok n
   | C.EGroup e1 => tfrag_e e1
   | C.EUn C.UMinus e1 | C.EUn C.UBang e1 => tfrag_e e1
-  | C.EBin op _ _ l r => match trop op with Some _ => tfrag_e l && tfrag_e r | None => false end
+  | C.EBin op lt rt l r =>
+      match trop op with
+      | Some _ =>
+          tfrag_e l && tfrag_e r &&
+          match op with
+          | C.BEq | C.BNe => scalar_valued l || scalar_valued r
+          | C.BStar => match lt with C.TArr => false | _ => true end   (* no repetition (deepCopy) *)
+          | _ => true
+          end
+      | None => false
+      end
+  | C.EArr l => tfrag_el l
+  | C.EIndex l i => tfrag_e l && tfrag_e i
   | _ => false
-  end.
+  end
+with tfrag_el (l : C.elist) : bool :=
+  match l with C.ENil => true | C.ECons e t => tfrag_e e && tfrag_el t end.
 
 (* ====================================================================== *)
 (* 2. Values against cells, environments against scopes                    *)
@@ -69,16 +109,26 @@ Fixpoint tfrag_e (e : C.expr) : bool :=
 Inductive holds (h : heap) : loc -> Vm.value -> Prop :=
 | h_num l f : hget h l = Some (HNum f) -> holds h l (Vm.VNum f)
 | h_bool l b : hget h l = Some (HBool b) -> holds h l (Vm.VBool b)
-| h_str l x : hget h l = Some (HStr x) -> is_ascii x = true -> holds h l (Vm.VStr x).
+| h_str l x : hget h l = Some (HStr x) -> is_ascii x = true -> holds h l (Vm.VStr x)
+| h_arr l ls vs : hget h l = Some (HArr ls) -> Forall2 (holds h) ls vs -> holds h l (Vm.VArr vs).
 
-Lemma holds_ext h h' l v : heap_extends h h' -> holds h l v -> holds h' l v.
-Proof. intros [_ E] H. destruct H; [apply h_num | apply h_bool | apply h_str]; auto. Qed.
+Lemma holds_ext h h' : heap_extends h h' -> forall l v, holds h l v -> holds h' l v.
+Proof.
+  intros [_ E]. fix IH 3. intros l v H. destruct H as [l f G|l b G|l x G A|l ls vs G F].
+  - apply h_num; auto.
+  - apply h_bool; auto.
+  - apply h_str; auto.
+  - apply (h_arr h' l ls vs); [apply E; exact G|].
+    clear G. revert ls vs F. fix IHF 3. intros ls vs F. destruct F; constructor; [apply IH; assumption | apply IHF; assumption].
+Qed.
 
-Lemma holds_fun h l v v' : holds h l v -> holds h l v' -> v = v'.
-Proof. intros H H'. destruct H; inversion H'; subst; congruence. Qed.
-
-Lemma holds_basic h l v : holds h l v -> exists x, hget h l = Some x /\ is_basic x = true.
+(* a held cell is a basic cell or an array cell *)
+Lemma holds_cell h l v : holds h l v ->
+  exists x, hget h l = Some x /\ (is_basic x = true \/ is_composite x = true).
 Proof. intro H. destruct H; eauto. Qed.
+
+Definition scalar (v : Vm.value) : Prop :=
+  match v with Vm.VNum _ | Vm.VBool _ | Vm.VStr _ => True | _ => False end.
 
 Lemma utf8_ascii s : is_ascii s = true -> Vm.utf8_encode s = s.
 Proof.
@@ -250,48 +300,183 @@ Proof.
   destruct (Prim2SF x) as [sx|sx| |sx mx ex], (Prim2SF y) as [sy|sy| |sy my ey]; try reflexivity.
 Qed.
 
-(* value.Equals on two cells that hold plain values *)
+Lemma run_depth {A} (k : nat -> M A) s : bindM depth_fuel k s = k value_depth s.
+Proof. reflexivity. Qed.
+
+(* copying the value of one cell to another cell of a larger heap *)
+Lemma holds_of_cell h h' l c v hv :
+  heap_extends h h' -> holds h l v -> hget h l = Some hv -> hget h' c = Some hv -> holds h' c v.
+Proof.
+  intros X H G G'. destruct H as [l f G0|l b G0|l x G0 A|l ls vs G0 F]; rewrite G in G0; inversion G0; subst.
+  - apply h_num; auto.
+  - apply h_bool; auto.
+  - apply h_str; auto.
+  - apply (h_arr h' c ls vs); auto. eapply Forall2_impl; [|exact F]. intros; eapply holds_ext; eauto.
+Qed.
+
+(* copyOrRef of a held cell: a fresh cell for a basic value, the same cell for an array *)
+Lemma copy_tie d s l v : good s -> holds (st_heap s) l v ->
+  exists c s', copy_or_ref (S d) l s = (Ok c, s') /\ holds (st_heap s') c v /\ sext s s'.
+Proof.
+  intros G H. destruct (holds_cell _ _ _ H) as (hv & Gl & [B|Cc]).
+  - exists (hnext (st_heap s)), (allocst s hv). split; [apply (basic_copied d l s hv Gl B)|].
+    split; [|apply sext_allocst; auto].
+    eapply holds_of_cell; [apply (sext_heap _ _ (sext_allocst s hv G)) | exact H | exact Gl | apply hget_allocst].
+  - exists l, s. split; [apply (composite_shared d l s hv Gl Cc)|]. split; [exact H | apply sext_refl; auto].
+Qed.
+
+Lemma copy_list_tie d : forall ls vs s, good s -> Forall2 (holds (st_heap s)) ls vs ->
+  exists ls' s', mapM (copy_or_ref (S d)) ls s = (Ok ls', s') /\ Forall2 (holds (st_heap s')) ls' vs /\ sext s s'.
+Proof.
+  induction ls as [|l t IH]; intros vs s G F; inversion F as [|? v ? vt Hl Ft]; subst.
+  - exists [], s. split; [reflexivity|]. split; [constructor | apply sext_refl; auto].
+  - destruct (copy_tie d s l v G Hl) as (c & s1 & Hc & Hh & X1).
+    assert (Ft1 : Forall2 (holds (st_heap s1)) t vt).
+    { eapply Forall2_impl; [|exact Ft]. intros; eapply holds_ext; [apply (sext_heap _ _ X1) | eauto]. }
+    destruct (IH vt s1 (sext_good _ _ X1) Ft1) as (t' & s2 & Ht & Hh2 & X2).
+    exists (c :: t'), s2. split.
+    + cbn [mapM]. rewrite (run_ok _ _ _ _ _ Hc), (run_ok _ _ _ _ _ Ht). reflexivity.
+    + split; [|eapply sext_trans; eauto]. constructor; auto.
+      eapply holds_ext; [apply (sext_heap _ _ X2) | exact Hh].
+Qed.
+
+(* value.Equals on two cells that hold plain values, one of them a scalar *)
 Lemma equals_tie d s la lb a b t :
-  holds (st_heap s) la a -> holds (st_heap s) lb b -> Vm.val_equals a b = Some t ->
+  holds (st_heap s) la a -> holds (st_heap s) lb b -> scalar a \/ scalar b -> Vm.val_equals a b = Some t ->
   equals (S d) la lb s = (Ok t, s).
 Proof.
-  intros Ha Hb Hv. simpl.
-  destruct Ha as [la x Ga|la x Ga|la x Ga Aa], Hb as [lb y Gb|lb y Gb|lb y Gb Ab]; simpl in Hv; try discriminate;
+  intros Ha Hb Sc Hv. simpl.
+  destruct Ha as [la x Ga|la x Ga|la x Ga Aa|la xs vxs Ga Fa], Hb as [lb y Gb|lb y Gb|lb y Gb Ab|lb ys vys Gb Fb];
+    simpl in Hv; try discriminate; try (destruct Sc as [[]|[]]; fail);
     rewrite (run_load _ s la _ Ga), (run_load _ s lb _ Gb); inversion Hv; reflexivity.
 Qed.
 
-(* the operator on two cells that hold plain values: one allocation of the result *)
-Lemma dispatch_tie op op' lt rt s la lb a b v :
-  trop op = Some op' -> op <> C.BEq -> op <> C.BNe ->
-  holds (st_heap s) la a -> holds (st_heap s) lb b -> C.eval_binop op lt rt a b = Some v ->
-  exists hv, bin_dispatch op' la lb s = (Ok (hnext (st_heap s)), allocst s hv) /\
-             (forall h l, hget h l = Some hv -> holds h l v).
-Proof.
-  intros T N1 N2 Ha Hb Hv. unfold bin_dispatch.
-  destruct Ha as [la x Ga|la x Ga|la x Ga Aa], Hb as [lb y Gb|lb y Gb|lb y Gb Ab];
-    destruct op; try congruence; simpl in T; inversion T; subst op'; clear T;
-    simpl in Hv; destruct lt, rt; try discriminate Hv;
-    rewrite (run_load _ s la _ Ga); cbv iota;
-    first [rewrite (run_load_num _ s lb _ Gb) | rewrite (run_load_str _ s lb _ Gb) | rewrite (run_load_bool _ s lb _ Gb)];
-    cbn [bin_num bin_str bin_bool].
-  all: try (destruct (PrimFloat.eqb y 0); [discriminate Hv|]).
-  all: inversion Hv; subst v; clear Hv; eexists; (split; [reflexivity|]); intros h l Hl.
-  all: try (apply h_num; exact Hl); try (apply h_bool; exact Hl).
-  all: try (rewrite float_mod_fmod; apply h_num; exact Hl).
-  all: try (apply h_str; [exact Hl | apply is_ascii_app; assumption]).
-Qed.
+Lemma Forall2_app_holds h a va b vb :
+  Forall2 (holds h) a va -> Forall2 (holds h) b vb -> Forall2 (holds h) (a ++ b) (va ++ vb).
+Proof. intros F G. induction F; simpl; auto. Qed.
 
-Lemma run_depth {A} (k : nat -> M A) s : bindM depth_fuel k s = k value_depth s.
-Proof. reflexivity. Qed.
+(* the operator on two cells that hold plain values (no repetition of arrays) *)
+Lemma dispatch_tie op op' lt rt s la lb a b v :
+  trop op = Some op' -> op <> C.BEq -> op <> C.BNe -> (op = C.BStar -> lt <> C.TArr) -> good s ->
+  holds (st_heap s) la a -> holds (st_heap s) lb b -> C.eval_binop op lt rt a b = Some v ->
+  exists l s', bin_dispatch op' la lb s = (Ok l, s') /\ holds (st_heap s') l v /\ sext s s'.
+Proof.
+  intros T N1 N2 NR G Ha Hb Hv. unfold bin_dispatch.
+  destruct Ha as [la x Ga|la x Ga|la x Ga Aa|la xs vxs Ga Fa], Hb as [lb y Gb|lb y Gb|lb y Gb Ab|lb ys vys Gb Fb];
+    destruct op; try congruence; simpl in T; inversion T; subst op'; clear T;
+    simpl in Hv; destruct lt, rt; try discriminate Hv; try (exfalso; apply NR; reflexivity);
+    rewrite (run_load _ s la _ Ga); cbv iota.
+  (* array + array *)
+  15: { inversion Hv; subst v; clear Hv. unfold bin_arr. rewrite (run_load _ s lb _ Gb), run_depth.
+        destruct value_depth_S as [d Hd]. rewrite Hd.
+        destruct (copy_list_tie d xs vxs s G Fa) as (xs' & s1 & Hx & Hhx & X1).
+        assert (Fb1 : Forall2 (holds (st_heap s1)) ys vys)
+          by (eapply Forall2_impl; [|exact Fb]; intros; eapply holds_ext; [apply (sext_heap _ _ X1) | eauto]).
+        destruct (copy_list_tie d ys vys s1 (sext_good _ _ X1) Fb1) as (ys' & s2 & Hy & Hhy & X2).
+        rewrite (run_ok _ _ _ _ _ Hx), (run_ok _ _ _ _ _ Hy).
+        exists (hnext (st_heap s2)), (allocst s2 (HArr (xs' ++ ys'))).
+        split; [reflexivity|].
+        pose proof (sext_allocst s2 (HArr (xs' ++ ys')) (sext_good _ _ X2)) as X3.
+        split; [|eapply sext_trans; [exact X1|]; eapply sext_trans; eauto].
+        apply (h_arr _ _ (xs' ++ ys') (vxs ++ vys)); [apply hget_allocst|].
+        apply Forall2_app_holds.
+        - eapply Forall2_impl; [|exact Hhx]. intros; eapply holds_ext;
+            [eapply heap_extends_trans; [apply (sext_heap _ _ X2) | apply (sext_heap _ _ X3)] | eauto].
+        - eapply Forall2_impl; [|exact Hhy]. intros; eapply holds_ext; [apply (sext_heap _ _ X3) | eauto]. }
+  all: first [rewrite (run_load_num _ s lb _ Gb) | rewrite (run_load_str _ s lb _ Gb) | rewrite (run_load_bool _ s lb _ Gb)];
+       cbn [bin_num bin_str bin_bool].
+  all: try (destruct (PrimFloat.eqb y 0); [discriminate Hv|]).
+  all: inversion Hv; subst v; clear Hv;
+       eexists _, (allocst s _); (split; [reflexivity|]); (split; [|apply sext_allocst; auto]).
+  all: try (apply h_num; apply hget_allocst); try (apply h_bool; apply hget_allocst).
+  all: try (rewrite float_mod_fmod; apply h_num; apply hget_allocst).
+  all: try (apply h_str; [apply hget_allocst | apply is_ascii_app; assumption]).
+Qed.
 
 Lemma short_of_trop op op' v : trop op = Some op' -> short_of op' v = false.
 Proof. destruct op; simpl; intro T; inversion T; subst; reflexivity. Qed.
 
-Theorem tie_expr P : forall e x, xrel e x -> forall lenv E s v,
-  tfrag_e e = true -> C.eval_expr (fun n => CS.slook n lenv) e = Some v ->
-  envrel lenv E s -> good s -> ev_ok P E x s v.
+(* a manifestly scalar expression has a scalar value whenever it has one *)
+Lemma scalar_valued_sound env : forall e v, scalar_valued e = true -> C.eval_expr env e = Some v -> scalar v.
 Proof.
-  induction 1 as [f|b|str0|n t|e x Hx0 IH|e x Hx0 IH|e x Hx0 IH|op op' lt rt t l r xl xr H Hxl IHl Hxr IHr];
+  fix IH 1. intros e v S Ev. destruct e; simpl in S; try discriminate; simpl in Ev.
+  - inversion Ev; exact I.
+  - inversion Ev; exact I.
+  - inversion Ev; exact I.
+  - destruct op; try discriminate;
+      destruct (C.eval_expr env e) as [[]|]; try discriminate; inversion Ev; exact I.
+  - destruct (C.eval_expr env e1) as [a|]; [|discriminate]. destruct (C.eval_expr env e2) as [b|]; [|discriminate].
+    unfold C.eval_binop in Ev.
+    destruct op; try discriminate;
+      try (destruct (Vm.val_equals a b); [inversion Ev; exact I | discriminate]);
+      destruct lt; try discriminate; destruct rt; try discriminate;
+      destruct a; try discriminate; destruct b; try discriminate;
+      try (destruct (PrimFloat.eqb _ 0); try discriminate); inversion Ev; exact I.
+  - apply (IH e v S Ev).
+Qed.
+
+(* indices *)
+Lemma norm_idx_eq f n b i : Vm.normalize_index f n b = Vm.IOk i -> normalize_index f n b = Ok i.
+Proof.
+  unfold Vm.normalize_index, normalize_index.
+  change (Vm.go_int_exact f) with (Num.go_int_exact f).
+  destruct (go_int_exact f) as [z|]; [|discriminate].
+  destruct ((z <? - Z.of_nat n) || ((if b then Z.of_nat n else Z.of_nat n - 1) <? z))%Z; [discriminate|].
+  destruct (z <? 0)%Z; intro H; inversion H; reflexivity.
+Qed.
+Lemma norm_idx_lt f n i : Vm.normalize_index f n false = Vm.IOk i -> (i < n)%nat.
+Proof.
+  unfold Vm.normalize_index. destruct (Vm.go_int_exact f) as [z|]; [|discriminate].
+  destruct ((z <? - Z.of_nat n) || (Z.of_nat n - 1 <? z))%Z eqn:Q; [discriminate|].
+  apply orb_false_iff in Q as [Q1 Q2]. apply Z.ltb_ge in Q1, Q2.
+  destruct (z <? 0)%Z eqn:Q3; intro H; inversion H; subst.
+  - apply Z.ltb_lt in Q3. lia.
+  - apply Z.ltb_ge in Q3. lia.
+Qed.
+Lemma Forall2_nth_holds h ls vs i v :
+  Forall2 (holds h) ls vs -> nth_error vs i = Some v -> exists l, nth_error ls i = Some l /\ holds h l v.
+Proof.
+  intro F. revert i. induction F as [|l w lt vt Hl F IH]; intros [|i] H; simpl in *; try discriminate.
+  - inversion H; subst. eauto.
+  - apply IH; auto.
+Qed.
+Lemma Forall2_len_holds h ls vs : Forall2 (holds h) ls vs -> List.length ls = List.length vs.
+Proof. induction 1; simpl; auto. Qed.
+Lemma dec_ascii_fuel : forall s n, is_ascii s = true -> (List.length s <= n)%nat -> Vm.utf8_decode_fuel n s = s.
+Proof.
+  induction s as [|c t IH]; intros n A L; destruct n; simpl in *; auto; try lia.
+  unfold is_ascii in A. simpl in A. apply andb_true_iff in A as [A1 A2].
+  rewrite A1. simpl. f_equal. apply IH; auto. lia.
+Qed.
+Lemma dec_ascii s : is_ascii s = true -> Vm.utf8_decode s = s.
+Proof. intro A. apply dec_ascii_fuel; auto. Qed.
+Lemma nth_first_skip {A} (l : list A) i c : nth_error l i = Some c -> firstn 1 (skipn i l) = [c].
+Proof. revert i. induction l as [|a t IH]; intros [|i] H; simpl in *; try discriminate; [inversion H; auto | auto]. Qed.
+Lemma is_ascii_nth s i c : is_ascii s = true -> nth_error s i = Some c -> is_ascii [c] = true.
+Proof.
+  unfold is_ascii. intros A H. apply nth_error_In in H. rewrite forallb_forall in A. simpl. rewrite (A c H). reflexivity.
+Qed.
+
+Definition evs_ok (P : program) (E : env) (xs : list expr) (s : state) (vs : list Vm.value) : Prop :=
+  exists N ls s', eval_exprs N P E xs s = (Ok ls, s') /\ Forall2 (holds (st_heap s')) ls vs /\ sext s s'.
+
+Lemma exprs_mono P n m E x s l s' : (n <= m)%nat ->
+  eval_exprs n P E x s = (Ok l, s') -> eval_exprs m P E x s = (Ok l, s').
+Proof. intros L H. eapply (proj1 (proj2 (fuel_mono n m L))); [exact H | discriminate]. Qed.
+
+Theorem tie_expr_all P :
+  (forall e x, xrel e x -> forall lenv E s v,
+     tfrag_e e = true -> C.eval_expr (fun n => CS.slook n lenv) e = Some v ->
+     envrel lenv E s -> good s -> ev_ok P E x s v) /\
+  (forall l xl, xlrel l xl -> forall lenv E s vs,
+     tfrag_el l = true -> C.eval_list (fun n => CS.slook n lenv) l = Some vs ->
+     envrel lenv E s -> good s -> evs_ok P E xl s vs).
+Proof.
+  apply xrel_xlrel_ind;
+    [ intros f | intros b | intros str0 | intros n t | intros e x Hx0 IH | intros e x Hx0 IH | intros e x Hx0 IH
+    | intros op op' lt rt t l r xl xr H Hxl IHl Hxr IHr
+    | intros l xl t Hl IHl | intros l i xl xi t Hxl IHl Hxi IHi
+    | | intros e t x xt Hx0 IHx Hxt IHt ];
     intros lenv E s v Fr Ev R G; simpl in Fr, Ev.
   - inversion Ev; subst. apply ev_lit with (hv := HNum f); auto. intros; apply h_num; auto.
   - inversion Ev; subst. apply ev_lit with (hv := HBool b); auto. intros; apply h_bool; auto.
@@ -328,41 +513,116 @@ Proof.
     + eapply sext_trans; [apply sext_tickst; auto|]. eapply sext_trans; [exact X|].
       apply sext_allocst. eapply sext_good; eauto.
   - (* binary *)
-    rewrite H in Fr. apply andb_true_iff in Fr as [Fl Fr].
+    rewrite H in Fr. apply andb_true_iff in Fr as [Fr Fx]. apply andb_true_iff in Fr as [Fl Fr].
     destruct (C.eval_expr _ l) as [a|] eqn:El; [|discriminate].
     destruct (C.eval_expr _ r) as [b|] eqn:Er; [|discriminate].
     pose proof (envrel_sext _ _ _ _ (sext_tickst s G) R) as R1.
     destruct (IHl _ _ _ _ Fl El R1 (good_tickst s G)) as (N1 & la & s1 & Hx1 & Hl1 & X1).
     pose proof (envrel_sext _ _ _ _ X1 R1) as R2.
     destruct (IHr _ _ _ _ Fr Er R2 (sext_good _ _ X1)) as (N2 & lb & s2 & Hx2 & Hl2 & X2).
-    pose proof (holds_ext _ _ _ _ (sext_heap _ _ X2) Hl1) as Hl1'.
+    pose proof (holds_ext _ _ (sext_heap _ _ X2) _ _ Hl1) as Hl1'.
     apply (expr_mono P N1 (Nat.max N1 N2)) in Hx1; [|lia].
     apply (expr_mono P N2 (Nat.max N1 N2)) in Hx2; [|lia].
-    destruct (holds_basic _ _ _ Hl1) as (hva & Ga & _).
+    destruct (holds_cell _ _ _ Hl1) as (hva & Ga & _).
     assert (X02 : sext s s2).
     { eapply sext_trans; [apply sext_tickst; auto|]. eapply sext_trans; eauto. }
-    assert (Pre : forall k, eval_expr (S (Nat.max N1 N2)) P E (EBin op' t xl xr) s =
+    assert (Pr : eval_expr (S (Nat.max N1 N2)) P E (EBin op' t xl xr) s =
                (match op' with
                 | BEq => let* d := depth_fuel in let* r := equals d la lb in alloc (HBool r)
                 | BNotEq => let* d := depth_fuel in let* r := equals d la lb in alloc (HBool (negb r))
                 | _ => bin_dispatch op' la lb
-                end) s2 \/ k = 0%nat).
-    { intro k. left. rewrite eval_expr_EBin, (run_tick _ s G), (run_ok _ _ _ _ _ Hx1), (run_load _ s1 la _ Ga).
+                end) s2).
+    { rewrite eval_expr_EBin, (run_tick _ s G), (run_ok _ _ _ _ _ Hx1), (run_load _ s1 la _ Ga).
       rewrite (short_of_trop _ _ hva H), (run_ok _ _ _ _ _ Hx2). reflexivity. }
-    destruct (Pre 1%nat) as [Pr|]; [|discriminate]. clear Pre.
     destruct (value_depth_S) as [d Hd].
     destruct op; simpl in H; inversion H; subst op'; clear H.
     10,11: simpl in Ev; destruct (Vm.val_equals a b) as [tb|] eqn:Q; [|discriminate]; inversion Ev; subst v;
+      assert (Sc : scalar a \/ scalar b)
+        by (apply orb_true_iff in Fx as [Fx|Fx];
+            [left; eapply scalar_valued_sound; eauto | right; eapply scalar_valued_sound; eauto]);
       rewrite run_depth, Hd in Pr;
-      rewrite (run_ok _ _ _ _ _ (equals_tie d s2 la lb a b tb Hl1' Hl2 Q)) in Pr;
+      rewrite (run_ok _ _ _ _ _ (equals_tie d s2 la lb a b tb Hl1' Hl2 Sc Q)) in Pr;
       eexists _, _, _; (split; [exact Pr|]); (split; [apply h_bool, hget_allocst|]);
       (eapply sext_trans; [exact X02 | apply sext_allocst; eapply sext_good; eauto]).
     all: match type of Ev with C.eval_binop ?cop _ _ _ _ = _ =>
-           destruct (dispatch_tie cop _ lt rt s2 la lb a b v eq_refl ltac:(discriminate) ltac:(discriminate) Hl1' Hl2 Ev)
-             as (hv & D & Hh) end;
-         rewrite D in Pr; eexists _, _, _; (split; [exact Pr|]); (split; [apply Hh, hget_allocst|]);
-         (eapply sext_trans; [exact X02 | apply sext_allocst; eapply sext_good; eauto]).
+           destruct (dispatch_tie cop _ lt rt s2 la lb a b v eq_refl ltac:(discriminate) ltac:(discriminate)
+                       ltac:(first [intro Q; discriminate Q | intros _ Q; subst lt; discriminate Fx])
+                       (sext_good _ _ X02) Hl1' Hl2 Ev)
+             as (lr & s3 & D & Hh & X3) end;
+         rewrite D in Pr; eexists _, _, _; (split; [exact Pr|]); (split; [exact Hh|]);
+         (eapply sext_trans; [exact X02 | exact X3]).
+  - (* array literal *)
+    destruct (C.eval_list _ l) as [vs|] eqn:El; [|discriminate]. inversion Ev; subst v.
+    pose proof (envrel_sext _ _ _ _ (sext_tickst s G) R) as R1.
+    destruct (IHl _ _ _ _ Fr El R1 (good_tickst s G)) as (N & ls & s1 & Hx & Hh & X1).
+    pose proof (sext_allocst s1 (HArr ls) (sext_good _ _ X1)) as X2.
+    exists (S N), (hnext (st_heap s1)), (allocst s1 (HArr ls)). split; [|split].
+    + cbn [eval_expr]. rewrite (run_tick _ s G), (run_ok _ _ _ _ _ Hx). reflexivity.
+    + apply (h_arr _ _ ls vs); [apply hget_allocst|].
+      eapply Forall2_impl; [|exact Hh]. intros; eapply holds_ext; [apply (sext_heap _ _ X2) | eauto].
+    + eapply sext_trans; [apply sext_tickst; auto|]. eapply sext_trans; eauto.
+  - (* index *)
+    apply andb_true_iff in Fr as [Fl Fi].
+    destruct (C.eval_expr _ l) as [a|] eqn:El; [|discriminate].
+    destruct (C.eval_expr _ i) as [b|] eqn:Ei; [|discriminate].
+    destruct (Vm.index_value a b) as [w| |] eqn:Iv; try discriminate. inversion Ev; subst w.
+    pose proof (envrel_sext _ _ _ _ (sext_tickst s G) R) as R1.
+    destruct (IHl _ _ _ _ Fl El R1 (good_tickst s G)) as (N1 & la & s1 & Hx1 & Hl1 & X1).
+    pose proof (envrel_sext _ _ _ _ X1 R1) as R2.
+    destruct (IHi _ _ _ _ Fi Ei R2 (sext_good _ _ X1)) as (N2 & li & s2 & Hx2 & Hl2 & X2).
+    pose proof (holds_ext _ _ (sext_heap _ _ X2) _ _ Hl1) as Hl1'.
+    apply (expr_mono P N1 (Nat.max N1 N2)) in Hx1; [|lia].
+    apply (expr_mono P N2 (Nat.max N1 N2)) in Hx2; [|lia].
+    assert (X02 : sext s s2).
+    { eapply sext_trans; [apply sext_tickst; auto|]. eapply sext_trans; eauto. }
+    assert (Pr : forall k, eval_expr (S (Nat.max N1 N2)) P E (EIndex t xl xi) s =
+                 (let* va := load la in k va) s2 -> True) by auto. clear Pr.
+    unfold Vm.index_value in Iv.
+    destruct Hl1' as [la x Ga|la x Ga|la x Ga Aa|la ls vs Ga Fa]; try discriminate.
+    + (* a string *)
+      destruct Hl2 as [li f Gi|li y Gi|li y Gi Ai|li ys vys Gi Fi']; try discriminate.
+      rewrite (dec_ascii _ Aa) in Iv.
+      destruct (Vm.normalize_index f (List.length x) false) as [k|] eqn:Nk; [|discriminate]. inversion Iv; subst v.
+      pose proof (norm_idx_lt _ _ _ Nk) as Lk.
+      destruct (nth_error x k) as [c|] eqn:Nc; [|apply nth_error_None in Nc; lia].
+      change (match skipn k x with [] => [] | a0 :: _ => [a0] end) with (firstn 1 (skipn k x)).
+      rewrite (nth_first_skip _ _ _ Nc). pose proof (is_ascii_nth _ _ _ Aa Nc) as Ac. rewrite (utf8_ascii _ Ac).
+      exists (S (Nat.max N1 N2)), (hnext (st_heap s2)), (allocst s2 (HStr [c])). split; [|split].
+      * cbn [eval_expr]. rewrite (run_tick _ s G), (run_ok _ _ _ _ _ Hx1), (run_ok _ _ _ _ _ Hx2).
+        rewrite (run_load _ s2 la _ Ga), (run_load_num _ s2 li _ Gi).
+        unfold lift at 1. unfold bindM at 1. rewrite (norm_idx_eq _ _ _ _ Nk). rewrite Nc. reflexivity.
+      * apply h_str; [apply hget_allocst | exact Ac].
+      * eapply sext_trans; [exact X02 | apply sext_allocst; eapply sext_good; eauto].
+    + (* an array: the element cell itself *)
+      destruct Hl2 as [li f Gi|li y Gi|li y Gi Ai|li ys vys Gi Fi']; try discriminate.
+      destruct (Vm.normalize_index f (List.length vs) false) as [k|] eqn:Nk; [|discriminate].
+      destruct (nth_error vs k) as [w|] eqn:Nw; [|discriminate]. inversion Iv; subst w.
+      destruct (Forall2_nth_holds _ _ _ _ _ Fa Nw) as (le & Nl & Hle).
+      exists (S (Nat.max N1 N2)), le, s2. split; [|split; [exact Hle | exact X02]].
+      cbn [eval_expr]. rewrite (run_tick _ s G), (run_ok _ _ _ _ _ Hx1), (run_ok _ _ _ _ _ Hx2).
+      rewrite (run_load _ s2 la _ Ga), (run_load_num _ s2 li _ Gi).
+      unfold lift at 1. unfold bindM at 1. rewrite (Forall2_len_holds _ _ _ Fa), (norm_idx_eq _ _ _ _ Nk).
+      rewrite Nl. reflexivity.
+  - (* the empty list *)
+    inversion Ev; subst. exists 1%nat, [], s. split; [reflexivity|]. split; [constructor | apply sext_refl; auto].
+  - (* a list *)
+    apply andb_true_iff in Fr as [Fe Ft].
+    destruct (C.eval_expr _ e) as [w|] eqn:Ee; [|discriminate].
+    destruct (C.eval_list _ t) as [ws|] eqn:Et; [|discriminate]. inversion Ev; subst v.
+    destruct (IHx _ _ _ _ Fe Ee R G) as (N1 & l & s1 & Hx1 & Hl1 & X1).
+    destruct value_depth_S as [d Hd].
+    destruct (copy_tie d s1 l w (sext_good _ _ X1) Hl1) as (c & s2 & Hc & Hhc & X2).
+    assert (X12 : sext s s2) by (eapply sext_trans; eauto).
+    destruct (IHt _ _ _ _ Ft Et (envrel_sext _ _ _ _ X12 R) (sext_good _ _ X12)) as (N2 & ls & s3 & Hx3 & Hl3 & X3).
+    exists (S (Nat.max N1 N2)), (c :: ls), s3. split; [|split].
+    + cbn [eval_exprs]. rewrite (run_ok _ _ _ _ _ (expr_mono P N1 _ _ _ _ _ _ (Nat.le_max_l N1 N2) Hx1)).
+      rewrite run_depth, Hd, (run_ok _ _ _ _ _ Hc).
+      rewrite (run_ok _ _ _ _ _ (exprs_mono P N2 _ _ _ _ _ _ (Nat.le_max_r N1 N2) Hx3)). reflexivity.
+    + constructor; auto. eapply holds_ext; [apply (sext_heap _ _ X3) | exact Hhc].
+    + eapply sext_trans; eauto.
 Qed.
+
+Definition tie_expr P := proj1 (tie_expr_all P).
 
 (* ====================================================================== *)
 (* 5. Statements                                                           *)
@@ -641,13 +901,6 @@ Proof.
     rewrite (cond_mono P n m _ _ _ _ _ _ L Q). destruct o; [exact H | apply IH; exact H].
 Qed.
 
-Lemma holds_of_cell h h' l c v hv :
-  holds h l v -> hget h l = Some hv -> hget h' c = Some hv -> holds h' c v.
-Proof.
-  intros H G G'. destruct H; rewrite G in *; match goal with Q : Some _ = Some _ |- _ => inversion Q; subst end;
-    [apply h_num | apply h_bool | apply h_str]; auto.
-Qed.
-
 (* destruct the scrutinee of the match at the head of an equation in H *)
 Ltac dscrut H Hl :=
   match type of H with (match ?t with _ => _ end) = _ => destruct t eqn:Hl end.
@@ -684,12 +937,11 @@ Section Main.
     intros Rx Fx Ev R G.
     destruct (tie_expr P e x Rx lenv E (tickst s) v Fx Ev (envrel_sext _ _ _ _ (sext_tickst s G) R) (good_tickst s G))
       as (N & l & s1 & Hx & Hh & X1).
-    destruct (holds_basic _ _ _ Hh) as (hv & Gl & Bl). destruct value_depth_S as [d Hd].
-    exists N, (hnext (st_heap s1)), (allocst s1 hv). split.
-    - rewrite (run_ok _ _ _ _ _ Hx), run_depth, Hd. apply (basic_copied d l s1 hv Gl Bl).
-    - split; [eapply holds_of_cell; [exact Hh | exact Gl | apply hget_allocst]|].
-      eapply sext_trans; [apply sext_tickst; auto|]. eapply sext_trans; [exact X1|].
-      apply sext_allocst. eapply sext_good; eauto.
+    destruct value_depth_S as [d Hd].
+    destruct (copy_tie d s1 l v (sext_good _ _ X1) Hh) as (c & s2 & Hc & Hhc & X2).
+    exists N, c, s2. split.
+    - rewrite (run_ok _ _ _ _ _ Hx), run_depth, Hd. exact Hc.
+    - split; [exact Hhc|]. eapply sext_trans; [apply sext_tickst; auto|]. eapply sext_trans; eauto.
   Qed.
 
   Lemma while_step f : list_tie P f -> while_tie f -> while_tie (S f).
@@ -837,7 +1089,7 @@ End Main.
 (* ====================================================================== *)
 (* 6. Whole programs                                                       *)
 (* ====================================================================== *)
-(* reading a cell back as a plain value *)
+(* reading a basic cell back as a plain value; arrays are read back by the relation [holds] *)
 Definition reify (h : heap) (l : loc) : option Vm.value :=
   match hget h l with
   | Some (HNum f) => Some (Vm.VNum f)
@@ -845,20 +1097,23 @@ Definition reify (h : heap) (l : loc) : option Vm.value :=
   | Some (HStr x) => if is_ascii x then Some (Vm.VStr (Vm.utf8_encode x)) else None
   | _ => None
   end.
-Lemma holds_reify h l v : holds h l v <-> reify h l = Some v.
+Lemma reify_holds h l v : reify h l = Some v -> holds h l v.
 Proof.
-  unfold reify. split.
-  - intro H. destruct H; rewrite H; auto. rewrite H0, (utf8_ascii _ H0). reflexivity.
-  - destruct (hget h l) as [[f|x|b| | | |]|] eqn:G; try discriminate.
-    + intro Q; inversion Q; apply h_num; auto.
-    + destruct (is_ascii x) eqn:A; [|discriminate]. rewrite (utf8_ascii _ A).
-      intro Q; inversion Q; apply h_str; auto.
-    + intro Q; inversion Q; apply h_bool; auto.
+  unfold reify. destruct (hget h l) as [[f|x|b| | | |]|] eqn:G; try discriminate.
+  - intro Q; inversion Q; apply h_num; auto.
+  - destruct (is_ascii x) eqn:A; [|discriminate]. rewrite (utf8_ascii _ A).
+    intro Q; inversion Q; apply h_str; auto.
+  - intro Q; inversion Q; apply h_bool; auto.
+Qed.
+Lemma holds_reify h l v : scalar v -> holds h l v -> reify h l = Some v.
+Proof.
+  unfold reify. intros S H. destruct H; try contradiction; rewrite H; auto.
+  rewrite H0, (utf8_ascii _ H0). reflexivity.
 Qed.
 
-(* the value of a global of the Sem state, read back *)
-Definition sem_global (s : state) (n : str) : option Vm.value :=
-  match frame_get n (st_globals s) with Some l => reify (st_heap s) l | None => None end.
+(* the global n of the Sem state reads back as v *)
+Definition sem_global (s : state) (n : str) (v : Vm.value) : Prop :=
+  exists l, frame_get n (st_globals s) = Some l /\ holds (st_heap s) l v.
 
 Theorem tie_program (P : program) (p : C.slist) fuel env' s0 :
   CS.lx_l fuel p [[]] = Some (env', false) ->
@@ -866,7 +1121,7 @@ Theorem tie_program (P : program) (p : C.slist) fuel env' s0 :
   good s0 -> st_total s0 = 0%nat -> st_fails s0 = 0%nat ->
   exists N s1, (forall n, (N <= n)%nat -> run_program n P s0 = (ODone, s1)) /\
                st_trace s1 = st_trace s0 /\
-               forall n v, CS.slook n env' = Some v -> sem_global s1 n = Some v.
+               forall n v, CS.slook n env' = Some v -> sem_global s1 n v.
 Proof.
   intros H Rl Fl G T0 F0.
   destruct (tie_all P fuel) as (_ & IL & _ & _).
@@ -884,7 +1139,7 @@ Proof.
   - intros n v A. destruct R1 as (lfs & gf & Eq & F & FG).
     inversion F; subst. simpl in A.
     destruct (CS.alook n gf) as [w|] eqn:Q; [|discriminate]. inversion A; subst w.
-    destruct (FG n v Q) as (l & Gl & Hl). unfold sem_global. rewrite Gl. apply holds_reify. exact Hl.
+    destruct (FG n v Q) as (l & Gl & Hl). exists l. auto.
 Qed.
 
 Lemma good_init input ff ay : good (init_state None input ff ay).
@@ -903,8 +1158,12 @@ Fixpoint tr_e (e : C.expr) : expr :=
   | C.EUn C.UMinus e1 => EUn UMinus (tr_e e1)
   | C.EUn _ e1 => EUn UBang (tr_e e1)
   | C.EBin op _ _ l r => EBin (match trop op with Some o => o | None => BPlus end) TNone (tr_e l) (tr_e r)
+  | C.EArr l => EArr TNone (tr_el l)
+  | C.EIndex l i => EIndex TNone (tr_e l) (tr_e i)
   | _ => ENum 0%float
-  end.
+  end
+with tr_el (l : C.elist) : list expr :=
+  match l with C.ENil => [] | C.ECons e t => tr_e e :: tr_el t end.
 
 Fixpoint tr_s (s : C.stmt) : stmt :=
   match s with
@@ -923,15 +1182,21 @@ with tr_c (l : C.clist) : list (expr * list stmt) :=
 
 Lemma tr_e_rel : forall e, tfrag_e e = true -> xrel e (tr_e e).
 Proof.
-  fix IH 1. intros e F. destruct e; simpl in F; try discriminate.
-  - constructor.
-  - constructor.
-  - constructor.
-  - constructor.
-  - destruct op; try discriminate; simpl; constructor; apply IH; exact F.
-  - simpl. destruct (trop op) as [o|] eqn:T; [|discriminate]. apply andb_true_iff in F as [F1 F2].
-    apply x_bin; [exact T | apply IH; exact F1 | apply IH; exact F2].
-  - simpl. constructor. apply IH; exact F.
+  fix IH 1 with (IHl (l : C.elist) : tfrag_el l = true -> xlrel l (tr_el l)).
+  - intros e F. destruct e; simpl in F; try discriminate.
+    + constructor.
+    + constructor.
+    + constructor.
+    + constructor.
+    + simpl. constructor. apply IHl; exact F.
+    + destruct op; try discriminate; simpl; constructor; apply IH; exact F.
+    + simpl. destruct (trop op) as [o|] eqn:T; [|discriminate]. apply andb_true_iff in F as [F F3].
+      apply andb_true_iff in F as [F1 F2].
+      apply x_bin; [exact T | apply IH; exact F1 | apply IH; exact F2].
+    + simpl. apply andb_true_iff in F as [F1 F2]. constructor; apply IH; assumption.
+    + simpl. constructor. apply IH; exact F.
+  - intros l F. destruct l; simpl in F |- *; [constructor|].
+    apply andb_true_iff in F as [F1 F2]. constructor; [apply IH; exact F1 | apply IHl; exact F2].
 Qed.
 
 Lemma tr_rel :
@@ -978,13 +1243,12 @@ Qed.
              end
              x = 5          // lx_l: assigns the stale loop variable; Sem.v: the global x
          end
-   - arrays and maps (literals, a[i], a[i:j], + and * on arrays).  The relation extends
-     (holds on HArr cells element-wise; copyOrRef shares the cell, which is harmless without
-     element stores; Vm.normalize_index and Sem.normalize_index agree, checked), but == on
-     arrays does not: Sem.equals walks at most value_depth = 4000 levels and then crashes
-     (Go: stack overflow), lx_l's val_equals has no bound, and `a = [a]` in a loop builds
-     values of any depth — so the statement needs a depth bound or must exclude == on arrays
-     by a dynamic condition.
+   - == on two composites, array repetition, maps, slices.  Sem.equals and Sem.deep_copy walk at
+     most value_depth = 4000 levels and then crash (Go: stack overflow); lx_l's val_equals and
+     arr_repeat have no bound, and `a = [a]` in a loop builds values of any depth — so == is in the
+     fragment only when one operand is manifestly scalar, and * on arrays is out.  Maps and slices
+     are not done (the relation would extend as for arrays; Vm.normalize_index and
+     Sem.normalize_index agree: norm_idx_eq).
    - strings beyond ASCII.  Vm.value strings are UTF-8 bytes, Sem.v strings are code points:
      the tie needs utf8_decode (utf8_encode s) = s and that byte-wise comparison of encodings
      is code-point comparison, for valid code points; no such lemma exists yet.  (ASCII:
